@@ -306,12 +306,26 @@ def check(ctx: Ctx) -> list[RuleResult]:
     fr = repo.func("ramses_tx.frame.Frame.__repr__")
     r3.instances += 1
     r3.nontrivial += 1
-    joins = [n for n in own_nodes(fr.node) if isinstance(n, ast.Call) and isinstance(n.func, ast.Attribute) and n.func.attr == "join" and isinstance(n.func.value, ast.Constant)]
-    order = [norm(e) for e in joins[0].args[0].elts] if joins and isinstance(joins[0].args[0], ast.Tuple) else []
-    if joins and joins[0].func.value.value == " " and order == ["self.verb", "self.seqn", "*(repr(a) for a in self._addrs)", "self.code", "self.len_", "self.payload"]:  # type: ignore[union-attr]
-        r3.ok({"Frame.__repr__": order})
+    # the text it builds (join, f-string, + or format alike): verb seqn <the addresses> code len payload, single-space separated
+    rets_fr = [n.value for n in own_nodes(fr.node) if isinstance(n, ast.Return) and n.value is not None]
+    # a memoised repr: the returned attribute's (non-None) definitions in this function are what is built
+    built = []
+    for v in rets_fr:
+        if isinstance(v, ast.Attribute):
+            defs_ = [a.value for a in own_nodes(fr.node) if isinstance(a, ast.Assign) and any(norm(t) == norm(v) for t in a.targets) and not (isinstance(a.value, ast.Constant) and a.value.value is None)]
+            built += defs_ or [v]
+        else:
+            built.append(v)
+    tpls = [str_template(fr.node, expand(fr.node, v, pure_only=False)) for v in built]
+    def _repr_order_ok(t: list) -> bool:
+        vs = [v for k, v in t if k == "var"]
+        ls = [v for k, v in t if k == "lit"]
+        return len(vs) >= 6 and vs[:2] == ["self.verb", "self.seqn"] and vs[-3:] == ["self.code", "self.len_", "self.payload"] and all("_addrs" in v for v in vs[2:-3]) and all(x == " " for x in ls) and len(ls) == len(vs) - 1
+    order = [[v for k, v in t if k == "var"] for t in tpls]
+    if tpls and all(_repr_order_ok(t) for t in tpls):
+        r3.ok({"Frame.__repr__": order[0]})
     else:
-        r3.fail(f"{fr.short}:join-order", fr.loc(), f"Frame.__repr__ joins {order} with {joins[0].func.value.value if joins else None!r}")  # type: ignore[union-attr]
+        r3.fail(f"{fr.short}:join-order", fr.loc(), f"Frame.__repr__ no longer builds 'verb seqn <addresses> code len payload' separated by single spaces: {order}")
     fa = repo.func("ramses_tx.command.Command._from_attrs")
     r3.instances += 1
     r3.nontrivial += 1
